@@ -270,6 +270,15 @@ def oracle(ctx, extra):
                     doc = "```{%s} a.png\n:%s: %s\n```\n" % (ty, opt, val)
                     if check_html(m, name, plugins, doc, True, False, fails):
                         n += 1
+    # ... and documents for the text renderers: images that share a destination, or a title, or everything but the alt text, inline
+    # and alone in a paragraph; leaves with Unicode line boundaries
+    for d2 in ["Click ![save icon](/i/disk.png) to save, or ![export as a file](/i/disk.png) to export.\n",
+               "a ![one](/i.png 't') b ![two](/i.png 't') c ![one](/j.png 't') d ![one](/i.png 'u')\n\n![alone](/i.png 't')\n\n![alone too](/i.png 't')\n",
+               "- x ![p](/q.png) y ![r](/q.png)\n\n> ![s](/q.png) z ![s](/q.png)\n",
+               "> a\u2028b c\x0cd\n\n    co\x0cde\u2028x\n\n- i\x85j\n  k\x1cl\n"]:
+        for which in ("markdown", "rst"):
+            check_text_renderer(m, which, d2, fails)
+            n += 1
     for i in range(ctx.n(2500, 50000)):
         name, plugins, directives = cfgs[i % len(cfgs)]
         names = [p for p in plugins if isinstance(p, str)]
